@@ -958,7 +958,7 @@ CLAIMED["C12"] = plan_C12
 
 
 def plan_C14(ctx):
-    k, m = ctx.q((2, 3), (3, 3))
+    k, m = ctx.q((2, 3), (3, 2))
 
     map_pids = []
 
@@ -1009,7 +1009,7 @@ def plan_C14(ctx):
             p.helpers = (helpers + "\n" if helpers else "") + gen.il_driver(p.name, k, m, makers)
             n += 1
             corp.add(p)
-        return {"programs": n, "iterators_k": k, "steps_each_m": m, "interleavings_per_program": "all schedules giving each iterator exactly m steps (k=2,m=3: 20; k=3,m=3: 1680)"}
+        return {"programs": n, "iterators_k": k, "steps_each_m": m, "interleavings_per_program": "all schedules giving each iterator exactly m steps (k=2,m=3: 20; k=3,m=2: 90)"}
 
     extra = {
         "bounds": {"k": k, "m": m, "loop_bound_n": "[-1,2]",
